@@ -136,7 +136,6 @@ let ghost h = ith.index@ as int;
                 if wf {
                     assert(hunk_wf(f.spec_hunks()[h]));
                     assert(line_wf(f.spec_hunks()[h], k));
-                    assert(kind(ls[k]) != Kind::Other);
                 }
             }
 //@edit rule=ghost before=<<prev_line = Some(line);>>
@@ -151,12 +150,20 @@ let ghost h = ith.index@ as int;
                         fa = k + 1;
                         assert(deleted_lines@ == dq0.push(line)); // [Db.step.removed_line_queued]
                         assert(line_changes@ == lc0); // [Db.step.removed_line_no_entry_yet]
-                    } else {
+                    } else if kind(ls[k]) == Kind::Ctx {
                         lemma_step_fold(f, h, k, gs, fa, dq0, prev0, lc0, origin0, carve, line_changes@); // [Db.step.context_line_fold]
                         origin = fold_origin(origin0, h, k, gs, dq0, prev0);
                         lemma_closed_to_inner(f, h, k, line_changes@, origin, carve, deleted_lines@, line); // [Db.step.context_line_closes_group]
                         gs = k + 1;
                         fa = k + 1;
+                    } else {
+                        // a `\ No newline at end of file` marker line: no line of either file; the code takes
+                        // none of its branches, only `prev_line` becomes the marker (nobody reads it there:
+                        // the next line is an added line)
+                        lemma_step_marker(f, h, k, gs, fa, dq0, prev0, lc0, origin0, carve, line); // [Db.step.marker_line]
+                        fa = k + 1;
+                        assert(deleted_lines@ == dq0); // [Db.step.marker_line_queue_unchanged]
+                        assert(line_changes@ == lc0); // [Db.step.marker_line_no_entry]
                     }
                 }
             }
